@@ -90,6 +90,19 @@ DynSettingsCases ==
       fs \in {<<Fld(E("x-custom", "v1"), 2), Fld(E("x-custom", "v1"), 1)>>,
               <<Fld(E("x-a", "1"), 4), Fld(E("x-b", "2"), 3), Fld(E("x-a", "1"), 1), Fld(E("x-b", "2"), 1), Fld(E("x-a", "other"), 2)>>}}
 
+RECURSIVE Chars(_, _)
+Chars(c, n) == IF n = 0 THEN "" ELSE c \o Chars(c, n - 1)
+\* ---- maxframe: frames whose payload is exactly SETTINGS_MAX_FRAME_SIZE's initial value (16384 octets, legal) or one less:
+\* a header block of about 17.5 KiB cut so that the HEADERS frame, or a CONTINUATION frame, or a padded HEADERS frame is full
+BigBlk == Block([i \in 1..4 |-> Fld(ReqPseudo[i], 1)] \o [i \in 1..58 |-> Fld(E("x-fill", Chars("m", 290)), 6)])
+BigResp == Block(<<Fld(E(":status", "200"), 1)>> \o [i \in 1..58 |-> Fld(E("x-fill", Chars("m", 290)), 6)])
+MaxFrameCases ==
+  {Vec(TRUE, Std, BigBlk, [pad |-> -1, prio |-> <<>>, cuts |-> <<n>>, endstream |-> TRUE], <<>>, "maxframe") : n \in {16383, 16384}}
+  \cup {Vec(TRUE, Std, BigBlk, [pad |-> -1, prio |-> <<>>, cuts |-> <<10, 10 + n>>, endstream |-> TRUE], <<>>, "maxframe") : n \in {16383, 16384}}
+  \cup {Vec(TRUE, Std, BigBlk, [pad |-> 5, prio |-> <<>>, cuts |-> <<16384 - 6>>, endstream |-> FALSE], <<>>, "maxframe")}
+  \cup {Vec(FALSE, <<>>, BigResp, [pad |-> -1, prio |-> <<>>, cuts |-> <<16384>>, endstream |-> TRUE], <<>>, "maxframe")}
+  \cup {Vec(TRUE, Std \o Frame(11, 0, 0, Rep(7, 16384)), FullBlk, Plain, <<>>, "maxframe")}          \* a full-size extension frame (ignored) first
+
 \* ---- resp
 RespCases ==
   {Vec(FALSE, pre, Block([i \in 1..Len(l) |-> Fld(l[i], ((i + r) % NR) + 1)]), o, <<>>, "resp") :
@@ -98,15 +111,13 @@ RespCases ==
       l \in {RespList, <<E(":status", "404"), E("content-type", "text/plain")>>, <<E(":status", "204")>>, <<E("server", "x"), E(":status", "301"), E("location", "/new")>>}}
 
 \* ---- values
-RECURSIVE Chars(_, _)
-Chars(c, n) == IF n = 0 THEN "" ELSE c \o Chars(c, n - 1)
 ValueCases ==
   {Vec(TRUE, Std, Block([i \in 1..4 |-> Fld(ReqPseudo[i], 1)] \o <<Fld(E("user-agent", "curl/8.0"), 2), Fld(E(n, v), r)>>), Plain, <<>>, "values") :
       r \in {2, 3, 5, 6}, n \in {"x-v", "accept-charset"},
       v \in {"", "a", Chars("z", 126), Chars("q", 127), Chars("m", 300), "~!@#$%^&*()_+{}|:<>?`-=[];',./ ", "0123456789"}}
 
 \* TLC evaluates every constant definition at start-up, so all families are emitted by one run
-Cases == RepCases \cup FramingCases \cup PrefixCases \cup DynCases \cup DynSettingsCases \cup RespCases \cup ValueCases
+Cases == RepCases \cup FramingCases \cup PrefixCases \cup DynCases \cup DynSettingsCases \cup RespCases \cup ValueCases \cup MaxFrameCases
 CaseSeq == SetToSeq(Cases)
 Emit(i) == PrintT("REPLAY " \o ToJson([i |-> i] @@ CaseSeq[i]))
 Init == shard \in 0..(Shards - 1) /\ phase = 0
